@@ -15,6 +15,7 @@ from ..values import *
 from .. import transfer as T
 from ..fgmodel import GeoHooks, build_fullgrid, FG
 from ..spterm import underlying, show
+import ast
 from ..model import AnalysisError, src
 
 META = {
@@ -485,7 +486,41 @@ def position_volumes(ctx, repo):
     return interp, pg
 
 
+def column_aligned_diagonals(ctx, repo):
+    """MIRROR: scipy.sparse.spdiags / dia_array store a diagonal COLUMN-aligned: entry (j - k, j) of diagonal k is data[k][j].  The mirror
+    pair of diagonals +k / -k of a symmetric matrix therefore needs data rows shifted by k against each other; handing the SAME row to
+    both offsets puts value d[j] at (j-k, j) and at (j+k, j): the upper entry of a pair is read k positions too far along the diagonal."""
+    pgc = repo.cls(FG, "PositionGrid")
+    fm = pgc.methods.get("_get_N_N_position_array")
+    if fm is None:
+        return
+    calls = [c for c in ast.walk(fm.node) if isinstance(c, ast.Call) and (repo.dotted_of(fm.module, c.func) or "").split(".")[-1] in ("spdiags", "dia_array", "dia_matrix")]
+    if not calls:
+        return
+    ctx.instance("MIRROR", len(calls))
+    for c in calls:
+        args = list(c.args)
+        data, offs = (args[0], args[1]) if len(args) >= 2 else (None, None)
+        if len(args) == 1 and isinstance(args[0], ast.Tuple) and len(args[0].elts) == 2:
+            data, offs = args[0].elts
+        same_rows = isinstance(data, (ast.List, ast.Tuple)) and len(data.elts) == 2 and src(data.elts[0]) == src(data.elts[1])
+        mirror = isinstance(offs, (ast.List, ast.Tuple)) and len(offs.elts) == 2 and \
+            {src(offs.elts[0]).replace(" ", ""), src(offs.elts[1]).replace(" ", "")} in ({"n_o", "-n_o"},) or \
+            (isinstance(offs, (ast.List, ast.Tuple)) and len(offs.elts) == 2 and
+             src(offs.elts[0]).replace(" ", "").lstrip("-") == src(offs.elts[1]).replace(" ", "").lstrip("-") and
+             src(offs.elts[0]).replace(" ", "").startswith("-") != src(offs.elts[1]).replace(" ", "").startswith("-"))
+        if same_rows and mirror:
+            ctx.violate("MIRROR", "C05.radial.column_aligned", "both radial off-diagonals come from ONE column-aligned constructor with the SAME data row "
+                        "for offset +n_o and -n_o: entry [cell, cell radially above] is read one shell too far out (area_o*R_{k+1}^2, "
+                        "r_{k+2}-r_{k+1}), and the matrix is no longer symmetric - from three shells on", fm.where, src(c)[:140],
+                        witness="spdiags: A[j-k, j] = data[k][j]; diags(values, offsets=k): A[i, i+k] = values[i]")
+        else:
+            ctx.inconclusive("MIRROR", "C05.radial.column_aligned", "a column-aligned diagonal constructor is used for the radial part; the alignment "
+                             "of its data rows was not derived", fm.where, witness=src(c)[:140])
+
+
 def run(ctx, repo, tier):
+    column_aligned_diagonals(ctx, repo)
     # ---------------- inherited: the direction-grid cell model itself (C03): the areas, arcs and angles that the shells scale come from it
     from ..driver import PrefixCtx
     from .. import voro as _voro
